@@ -144,6 +144,20 @@ pub fn correspondence(cases: &[e2e::Case], labels: &[String], rep: &mut Report) 
                         }
                     },
                 }
+            } else if let Some(name) = key.strip_prefix("macrobody ") {
+                // the function-pointer type the macro transmutes a callback's `run_callback` to
+                rep.count("frag:macro-callback");
+                if let Ok(ex) = ex {
+                    match ex.extern_fns.iter().find(|f| f.name == name) {
+                        Some(f) if strip_ws(&f.text).contains(&strip_ws(text)) => {}
+                        Some(f) => {
+                            let body = strip_ws(&f.text);
+                            let at = body.find("unsafeextern\"C\"fn(*constc_void").or_else(|| body.find("unsafeextern\"C\"fn(*mutc_void,")).unwrap_or(0);
+                            rep.disagree(label, "macro-callback-signature", &body[at..(at + 160).min(body.len())].to_string(), &strip_ws(text));
+                        }
+                        None => rep.disagree(label, "macro-signature", &format!("no extern \"C\" fn {name} in the expansion"), text),
+                    }
+                }
             } else {
                 rep.count("frag:c");
                 cfrags.push((key.to_string(), tool::norm_ws(text)));
